@@ -76,6 +76,8 @@ func (d *PathDecoder) SignatureAtPos(filename string, pos hcl.Pos) (*lang.Functi
 		}
 
 		if !foundActivePar {
+			// default to the last argument seen before the cursor
+			activePar = lastArgIdx
 			recoveredBytes := recoverLeftBytes(file.Bytes, pos, func(byteOffset int, r rune) bool {
 				return r == ',' && byteOffset > lastArgEndPos.Byte
 			})
